@@ -45,7 +45,7 @@ func vh_C06_spacing() {
 		}
 	}
 	ds := []string{"4", "7"}[vChoice("digit", 2)]
-	as := []string{"1" + ds, "x", "arr[1]", "(+ 1 " + ds + ")"}
+	as := []string{"1" + ds, "x", "arr[1]", "(+ 1 " + ds + ")", "0xfe", "0x1E", "2e3", "1.5"}
 	bs := []string{ds, "-" + ds, "y", "-" + ds + ".5"}
 	a := as[vChoice("a", len(as))]
 	b := bs[vChoice("b", len(bs))]
